@@ -105,6 +105,19 @@ def run(ctx, replay_case):
                     else:
                         if int(kv["by"]) <= 0 or any(l.split(" ")[2] == kv["violator"] for l in evs):
                             problem = "exceeded error: the violator was already emitted or the excess is not positive"
+                        else:
+                            # earliest point: no TPM2B size field read inside the violated region had already promised more than the
+                            # region allows - that is reported (anticipated) when the size is read, not bytes later (seed C03i: the
+                            # encrypted first parameter was walked as a plain structure, without opening its region)
+                            tps = {l.split(" ")[2]: l.split(" ")[3] for l in evs if l.split(" ")[4] == "..."}
+                            for i in range(idx + 1, len(evs)):
+                                pe = evs[i].split(" ")
+                                par = pe[2].rsplit(".", 1)[0]
+                                if pe[4] != "..." and pe[2].endswith(".size") and tps.get(par, "").startswith("TPM2B"):
+                                    if offs[i] - start + int(pe[4]) > int(kv["max"]):
+                                        problem = (f"exceeded error although the overrun was decidable when {pe[2]}={pe[4]} was read "
+                                                   f"({offs[i] - start} bytes counted in {cp}, limit {kv['max']}): not reported at the earliest point")
+                                        break
             # events before the error are a prefix of the lenient reading (the well-formed decode with the one size changed)
             if problem is None and c.kind != "pad_fault":      # (a pad fault changes several size fields: no single-field reading to compare with)
                 base = [ds.strip_pulls(l) for l in ds.events_of(c.meta["full"])]
